@@ -1454,6 +1454,9 @@ func (d *Data) storeAndUpdate(ctx *datastore.VersionedCtx, keyStr string, newDat
 		// cache updated field and field timestamps
 		for _, field := range origFields {
 			mdb.fields[field]--
+			if mdb.fields[field] <= 0 {
+				delete(mdb.fields, field)
+			}
 		}
 		for field := range newData {
 			mdb.fields[field]++
@@ -1585,6 +1588,9 @@ func (d *Data) DeleteData(ctx storage.VersionedCtx, keyStr string) error {
 		if found {
 			for field := range mdb.data[bodyid] {
 				mdb.fields[field]--
+				if mdb.fields[field] <= 0 {
+					delete(mdb.fields, field)
+				}
 			}
 			delete(mdb.data, bodyid)
 			mdb.deleteBodyID(bodyid)
@@ -2284,13 +2290,11 @@ func (d *Data) ServeHTTP(uuid dvid.UUID, ctx *datastore.VersionedCtx, w http.Res
 		if returnCounts {
 			result = fieldCount
 		} else {
-			fields := make([]string, len(fieldCount))
-			i := 0
+			fields := make([]string, 0, len(fieldCount))
 			for field, count := range fieldCount {
 				if count > 0 {
-					fields[i] = field
+					fields = append(fields, field)
 				}
-				i++
 			}
 			result = fields
 		}
